@@ -54,6 +54,15 @@ def subharnesses(tier):
                                                     nexp),
                              {'kind': 'seq', 'seq': sq.split(),
                               'expiries': nexp}))
+    # host a's presence service was restarted without resuming its session:
+    # the old session (A: same host name, so byte-identical payloads) still
+    # owns the nodes when the new one is asked to register
+    for sq in ('C1A C1a', 'C1A C2a', 'C1A C1a D1a', 'C1A C2a D2a',
+               'C1A C1a C1a'):
+        for nexp in (0, 1):
+            subs.append(('seq-%s-expiries%d' % (sq.replace(' ', '_'), nexp),
+                         {'kind': 'seq', 'seq': sq.split(),
+                          'expiries': nexp}))
     subs.append(('seq-C1a_Ka_C2a-expiries0',
                  {'kind': 'seq', 'seq': 'C1a Ka C2a'.split(), 'expiries': 0}))
     for what in ('running', 'endpoints', 'identity', 'unschedule'):
@@ -92,7 +101,8 @@ def _seq(S, spec):
     for p in ('/running', '/endpoints/proid', '/identity-groups/g'):
         tree.seed(p)
     svcs = {'a': _mk_service(tree, 101, 'host-a'),
-            'b': _mk_service(tree, 202, 'host-b')}
+            'b': _mk_service(tree, 202, 'host-b'),
+            'A': _mk_service(tree, 303, 'host-a')}
     owner_of = {}             # path -> (node letter, container)
     left = [spec['expiries']]
     ncall = [0]
@@ -102,7 +112,11 @@ def _seq(S, spec):
         if left[0] <= 0 or actor[0] is None:
             return
         ncall[0] += 1
-        other = 'b' if client.session == 101 else 'a'
+        cands = [n_ for n_ in ('A', 'b', 'a')
+                 if svcs[n_]._zk.session != client.session]
+        other = next((n_ for n_ in cands
+                      if any(nd.owner == svcs[n_]._zk.session
+                             for nd in tree.nodes.values())), cands[-1])
         act = S.choice('adversary_before_call_%d' % ncall[0],
                        3 if spec.get('recreate') else 2)
         if act == 1:
@@ -118,7 +132,7 @@ def _seq(S, spec):
             # own container of the instance started) - only if it is free
             left[0] -= 1
             if PATHS[0] not in tree.nodes:
-                tree.seed(PATHS[0], ('host-' + other).encode(),
+                tree.seed(PATHS[0], svcs[other].hostname.encode(),
                           owner=svcs[other]._zk.session)
                 owner_of[PATHS[0]] = (other, 'x')
                 S.reach('other_node_registered_mid_request')
